@@ -669,6 +669,9 @@ class Gen(object):
         c = rng.choice(self.good_classes)
         op = {'op': 'select', 'kind': self.sp(c['kind']), 'form': rng.choice(['many', 'many', 'one', 'any']),
               'q': self.query_ops(c['kind'], only_eq), 'via': rng.choice(['mm', 'mc'])}
+        if op['via'] == 'mc' and op['form'] == 'many' and len(op['q']) == 1 and op['q'][0][0] in ('eq', 'dict') \
+                and rng.random() < 0.5:
+            op['mcq'] = True        # the same filter through the public MetaClass.query(dict)
         return op
 
     def nav_steps(self, kind, maxlen):
@@ -1662,7 +1665,10 @@ class Exec(object):
             q = self.qops(op['q'])
             tgt = m if op['via'] == 'mm' else m.find_metaclass(op['kind'])
             args = (op['kind'],) if op['via'] == 'mm' else ()
-            if op['form'] == 'many':
+            if op.get('mcq') and op['form'] == 'many' and op['via'] != 'mm' and len(op['q']) == 1 \
+                    and op['q'][0][0] in ('eq', 'dict'):
+                r = x.QuerySet(tgt.query({sp: v for sp, v in op['q'][0][1]}))
+            elif op['form'] == 'many':
                 r = tgt.select_many(*(args + tuple(q)))
             elif op['form'] == 'one' or op['via'] != 'mm':
                 r = tgt.select_one(*(args + tuple(q)))
